@@ -3,6 +3,7 @@ import MuscleModel.Gateway.Binary
 import MuscleModel.Gateway.Text
 import MuscleModel.Gateway.Raw
 import MuscleModel.Gateway.WebSocket
+import MuscleModel.Gateway.Templating
 import MuscleModel.Wire.Ops
 
 /-! Engine `gw` (C03; gateway part of C02): see `harness/gw.cpp` for the op lines.
@@ -316,6 +317,25 @@ def doBigWs (dir n : String) : String :=
     else "ok end=0/1 n=1"
   | _, _ => "bad-op"
 
+/-- a `tcache` unit: `<template id>/<template size>/x<layout>/x<flattened Message>` (the first three as the real code computes them) -/
+def parseTUnit (tok : String) : Option TUnit :=
+  match tok.splitOn "/" with
+  | [id, ts, lay, msg] => do
+    let id ← nat? id; let ts ← nat? ts; let lay ← bytesOfTok lay; let m ← parseMsg msg
+    pure { id := id, layout := lay, tsize := ts, trivial := m.fields.isEmpty }
+  | _ => none
+
+/-- `tcache`: both ends' template caches (`Gateway/Templating.lean`) run on the Message sequence -/
+def doTcache (param : String) (unitToks : List String) : String :=
+  match parseSlash param, unitToks.mapM parseTUnit with
+  | some [e, mx], some us =>
+    if e > 9 ∨ mx > 4294967295 then "bad-op" else
+    let kinds := String.ofList (tKinds mx tEmpty us)
+    match tRun mx tEmpty tEmpty us with
+    | some (_, _, ds) => s!"ok k={kinds} end=0/1 n={ds.length}"
+    | none => s!"ok k={kinds} end=1/0 n=?"      -- cannot happen (`Props.C03.template_caches_in_step`)
+  | _, _ => "bad-op"
+
 def step (_ : Unit) (toks : List String) : Unit × String :=
   match toks with
   | ["case", n] => ((), "case " ++ n)
@@ -324,6 +344,7 @@ def step (_ : Unit) (toks : List String) : Unit × String :=
   | ["feed", kind, param, sched, hex] => ((), doFeed kind param sched hex)
   | ["share", enc, a, b, s] => ((), doShare enc a b s)
   | ["bigws", dir, n] => ((), doBigWs dir n)
+  | "tcache" :: param :: units => ((), doTcache param units)
   | _ => ((), "bad-op")
 
 def engine : Engine := { σ := Unit, init := (), step := step }
